@@ -327,3 +327,70 @@ extern "C" int format()
   vf_reach("end");
   return 0;
 }
+
+// ---- remaining query/convenience API on symbolic NUL-free strings
+extern "C" int misc()
+{
+  MStr ma, mb; symStr(ma, VF_L + 1); symStr(mb, VF_L);
+  String a((const char*)ma.v, ma.n), b((const char*)mb.v, mb.n);
+  unsigned q = vf_pick(6);
+  switch(q)
+  {
+  case 0: { // concatenation operators build new values and leave the operands alone
+    String c = a + b; MStr mc = concat(ma, mb); checkOne(c, mc); checkOne(a, ma); checkOne(b, mb);
+    String d2 = a; d2 += b; checkOne(d2, mc); checkOne(a, ma);
+    d2 += 'z'; byte z = 'z'; MStr mz; mz.set(&z, 1); mc.append(mz); checkOne(d2, mc);
+    break; }
+  case 1: { // static comparisons agree with the member ones
+    const char* pa = a; const char* pb = b;
+    vf_assert(sign(String::compare(pa, pb)) == sign(a.compare(b)), "static compare == member compare");
+    vf_assert(sign(String::compareIgnoreCase(pa, pb)) == sign(a.compareIgnoreCase(b)), "static compareIgnoreCase == member");
+    unsigned len = vf_pick(VF_L + 2);
+    vf_assert(sign(String::compare(pa, pb, len)) == sign(a.compare(b, len)), "static compare(len) == member");
+    vf_assert(sign(String::compareIgnoreCase(pa, pb, len)) == sign(a.compareIgnoreCase(b, len)), "static compareIgnoreCase(len) == member");
+    vf_assert(a.equalsIgnoreCase(b, len) == (a.compareIgnoreCase(b, len) == 0), "equalsIgnoreCase(len)");
+    vf_assert(String::length(pa) == ma.n, "static length");
+    bool sw = true; for(unsigned j = 0; j < mb.n; ++j) sw = sw & (j < ma.n) & (ma.v[j < ma.n ? j : 0] == mb.v[j]);
+    vf_assert(String::startsWith(pa, b) == sw, "static startsWith == model");
+    break; }
+  case 2: { // searches with a start offset
+    unsigned st = vf_pick(ma.n + 2);
+    if(mb.n)
+    {
+      int first = -1; for(unsigned j = st; j + mb.n <= ma.n; ++j) { bool mt = true; for(unsigned l = 0; l < mb.n; ++l) mt = mt & (ma.v[j + l] == mb.v[l]); if(mt) { first = j; break; } }
+      const char* f = a.find((const char*)b, (usize)st); const char* base = a.data->str;
+      vf_assert(first < 0 ? f == 0 : f == base + first, "find(str, start) == model");
+    }
+    int firstOf = -1; for(unsigned j = st; j < ma.n; ++j) { bool in = false; for(unsigned l = 0; l < mb.n; ++l) in = in | (ma.v[j] == mb.v[l]); if(in) { firstOf = j; break; } }
+    const char* g = a.findOneOf((const char*)b, (usize)st); const char* base2 = a.data->str;
+    vf_assert(firstOf < 0 ? g == 0 : g == base2 + firstOf, "findOneOf(chars, start) == model");
+    break; }
+  case 3: { // token(separators, start): successive tokens over two separator characters
+    usize pos = 0; unsigned startI = 0; unsigned guard = 0;
+    while(pos < a.length() && guard++ < 8)
+    {
+      String tk = a.token(",;", pos);
+      unsigned e = startI; while(e < ma.n && ma.v[e] != ',' && ma.v[e] != ';') ++e;
+      MStr want; want.set(ma.v + startI, e - startI); checkOne(tk, want);
+      startI = e + 1;
+      vf_assert(pos == (e < ma.n ? e + 1 : ma.n), "token advances the position behind the separator");
+    }
+    break; }
+  case 4: { // split into a set: unique tokens in first-occurrence order (concrete text: a symbolic token would make the real string hash pick one of 500 buckets per byte value)
+    String t("a,b,a,,c,b"); HashSet<String> parts; usize n = t.split(parts, ",");
+    vf_assert(n == 3 && parts.size() == 3, "split(HashSet) keeps each distinct token once");
+    HashSet<String>::Iterator it = parts.begin();
+    vf_assert(*it == "a", "first-occurrence order (1)"); ++it; vf_assert(*it == "b", "first-occurrence order (2)"); ++it; vf_assert(*it == "c", "first-occurrence order (3)");
+    break; }
+  case 5: { // toBool on the text forms it documents
+    static const char* texts[] = {"", "0", "false", "FALSE", "0.0", "0.", ".0", "00.000", "1", "true", "0.1", "x", "00"};
+    static const bool want[] = {false, false, false, false, false, false, false, false, true, true, true, true, true};
+    unsigned k = vf_pick(sizeof(texts) / sizeof(*texts));
+    String t = String::fromCString(texts[k]);
+    vf_assert(t.toBool() == want[k], "toBool on a documented text form");
+    vf_assert(String::isSpace(' ') && String::isSpace('\t') && !String::isSpace('a') && String::isDigit('7') && !String::isDigit('x') && String::isAlpha('q') && String::isHexDigit('F') && String::toLowerCase('Q') == 'q' && String::toUpperCase('q') == 'Q', "character classification helpers");
+    break; }
+  }
+  vf_reach("end");
+  return 0;
+}
